@@ -18,9 +18,17 @@
                        (alpha > 0, or full column rank);
      cut-off contract  cutoff_contract: Xs V = U diag S, U^T U = I, W = V diag(1/S) U^T Ys;
      Procrustes        Omega orthogonal and a minimiser of |Xs E_p Omega - Yhat E_q|_F.
-   Xs_tr/Xs_te/Ys_tr/Ys_te are the standardised blocks (scaler fitted on the training rows). *)
+   Xs_tr/Xs_te/Ys_tr/Ys_te are the standardised blocks (scaler fitted on the training rows).
+
+   Round 3 (Model/ReconExt.v, Proofs/ReconExtP.v, Proofs/ReconIdxP.v): the CHECKED Procrustes
+   contract  proc_contract n p q r env :=  Omega^T Omega = I  /\  Omega^T M = L^T L  (rc_L: oracle
+   factor, slot 15; M = (Xs E_p)^T (Xs W E_q)) - both residuals are evaluated per run - from which
+   global optimality is PROVED (C13_procrustes_contract_sufficient) and which, for a training
+   source of full column rank, determines GRD (C13_grd_determined); GRD under source AND target
+   rotation for every pair of widths, LRE under target rotation; the input-check functions
+   (guards, index resolution) as layer-D code. *)
 From mathcomp Require Import all_ssreflect all_algebra fingroup perm.
-From Verif Require Import MExp MExpMx Recon ReconListP ReconP F11_grd_wide_source.
+From Verif Require Import MExp MExpMx Recon ReconExt ReconListP ReconIdxP ReconP ReconExtP F11_grd_wide_source.
 Import GRing.Theory Num.Theory.
 Close Scope float_scope.
 Local Open Scope ring_scope.
@@ -132,7 +140,9 @@ Theorem C13_lre_source_rotation :
 Proof. exact recon_lre_source_rotation. Qed.
 Print Assumptions C13_lre_source_rotation.
 
-(* GRD under a source rotation — PARTIAL.  Full statement: GRD(XR, Y) = GRD(X, Y) for every
+(* GRD under a source rotation — PARTIAL; SUPERSEDED by C13_grd_source_rotation below (full
+   statement, every pair of widths, under the numerically checked contract instead of the
+   uniqueness assumed here); kept because its hypotheses are not comparable.  Full statement: GRD(XR, Y) = GRD(X, Y) for every
    orthogonal R and every pair of widths.  Proved here under the contract that Omega is the
    UNIQUE orthogonal minimiser of the original padded Procrustes problem; that contract is
    satisfiable only where the padded problem has a unique solution (generic for p <= q, never
@@ -248,3 +258,140 @@ Example C13_nonvacuous :
       & [/\ rc_alpha env = 0, eval_mx env (ridge_hyp_prog 2 1 1) = 0
           & gram (Xs_tr 2 1 env) 0 \in unitmx]].
 Proof. exact tiny_recon_ok. Qed.
+
+(* ------------------------------------------------------------------ round 3 *)
+(* the contract the correspondence evaluates for OrthogonalRegression(use_orthogonal_projector=
+   False) - Omega orthogonal, Omega^T M = L^T L - implies that Omega is a GLOBAL minimiser of
+   the zero-padded Procrustes problem (no spectral theorem needed) *)
+Theorem C13_procrustes_contract_sufficient :
+  forall (F : rcfType) (n p q r : nat) (env : env_mx F),
+    proc_contract n p q r env ->
+    forall O2 : 'M[F]_r, O2^T *m O2 = 1%:M ->
+      fro2 (Xs_tr n p env *m rc_Ep env p r *m rc_Om env r - Xs_tr n p env *m rc_W env p q *m rc_Eq env q r)
+      <= fro2 (Xs_tr n p env *m rc_Ep env p r *m O2 - Xs_tr n p env *m rc_W env p q *m rc_Eq env q r).
+Proof. exact recon_procrustes_sufficient. Qed.
+Print Assumptions C13_procrustes_contract_sufficient.
+
+(* GRD is a function of the data: whichever solution of the contract the orthogonal regression
+   returns (it is not unique for X wider than Y), the pointwise values are the same - training
+   source of full column rank, p <= r *)
+Theorem C13_grd_determined :
+  forall (F : rcfType) (n m p q r : nat) (env env' : env_mx F),
+    rc_Xtr env' n p = rc_Xtr env n p -> rc_Xte env' m p = rc_Xte env m p ->
+    rc_W env' p q = rc_W env p q ->
+    rc_Ep env' p r = rc_Ep env p r -> rc_Eq env' q r = rc_Eq env q r ->
+    rc_Ep env p r *m (rc_Ep env p r)^T = 1%:M ->
+    gram (Xs_tr n p env) 0 \in unitmx ->
+    proc_contract n p q r env -> proc_contract n p q r env' ->
+    eval_mx env' (grd_prog n m p q r) = eval_mx env (grd_prog n m p q r).
+Proof. exact recon_grd_determined. Qed.
+Print Assumptions C13_grd_determined.
+
+(* GRD is unchanged by a rotation or reflection of the source space - FULL statement: every
+   pair of widths (E_p E_p^T = I is p <= r = max p q), no uniqueness assumption on Omega *)
+Theorem C13_grd_source_rotation :
+  forall (F : rcfType) (n m p q r : nat) (R : 'M[F]_p) (env env' : env_mx F),
+    R *m R^T = 1%:M -> rc_Ep env p r *m (rc_Ep env p r)^T = 1%:M ->
+    rc_Xtr env' n p = rc_Xtr env n p *m R -> rc_Xte env' m p = rc_Xte env m p *m R ->
+    rc_Ytr env' n q = rc_Ytr env n q -> rc_Yte env' m q = rc_Yte env m q ->
+    rc_alpha env' = rc_alpha env ->
+    rc_Ep env' p r = rc_Ep env p r -> rc_Eq env' q r = rc_Eq env q r ->
+    gram (Xs_tr n p env) (rc_alpha env) \in unitmx -> gram (Xs_tr n p env) 0 \in unitmx ->
+    eval_mx env (ridge_hyp_prog n p q) = 0 -> eval_mx env' (ridge_hyp_prog n p q) = 0 ->
+    proc_contract n p q r env -> proc_contract n p q r env' ->
+    eval_mx env' (grd_prog n m p q r) = eval_mx env (grd_prog n m p q r).
+Proof. exact recon_grd_source_rotation. Qed.
+Print Assumptions C13_grd_source_rotation.
+
+(* ... and of the target space, for an estimator with fixed regularisation (q <= r) *)
+Theorem C13_grd_target_rotation :
+  forall (F : rcfType) (n m p q r : nat) (R : 'M[F]_q) (env env' : env_mx F),
+    R *m R^T = 1%:M ->
+    rc_Ep env p r *m (rc_Ep env p r)^T = 1%:M -> rc_Eq env q r *m (rc_Eq env q r)^T = 1%:M ->
+    rc_Xtr env' n p = rc_Xtr env n p -> rc_Xte env' m p = rc_Xte env m p ->
+    rc_Ytr env' n q = rc_Ytr env n q *m R -> rc_Yte env' m q = rc_Yte env m q *m R ->
+    rc_alpha env' = rc_alpha env ->
+    rc_Ep env' p r = rc_Ep env p r -> rc_Eq env' q r = rc_Eq env q r ->
+    gram (Xs_tr n p env) (rc_alpha env) \in unitmx -> gram (Xs_tr n p env) 0 \in unitmx ->
+    eval_mx env (ridge_hyp_prog n p q) = 0 -> eval_mx env' (ridge_hyp_prog n p q) = 0 ->
+    proc_contract n p q r env -> proc_contract n p q r env' ->
+    eval_mx env' (grd_prog n m p q r) = eval_mx env (grd_prog n m p q r).
+Proof. exact recon_grd_target_rotation. Qed.
+Print Assumptions C13_grd_target_rotation.
+
+(* LRE under a target rotation: same neighbour-ordering distances (they only see the source),
+   same value for the same neighbour set (local ridge contract with a unique solution) *)
+Theorem C13_lre_target_rotation :
+  forall (F : rcfType) (n m p q k : nat) (R : 'M[F]_q) (env env' : env_mx F),
+    R *m R^T = 1%:M ->
+    rc_Xtr env' n p = rc_Xtr env n p -> rc_Xte env' m p = rc_Xte env m p ->
+    rc_Ytr env' n q = rc_Ytr env n q *m R -> rc_Yte env' m q = rc_Yte env m q *m R ->
+    rc_alpha env' = rc_alpha env -> rc_Sel env' k n = rc_Sel env k n -> rc_ei env' m = rc_ei env m ->
+    gram (center (LX n p env k) (LX n p env k)) (rc_alpha env) \in unitmx ->
+    eval_mx env (lre_hyp_prog n p q k) = 0 -> eval_mx env' (lre_hyp_prog n p q k) = 0 ->
+    (forall i j, (eval_mx env' (sqdist_prog n m p)) i j = (eval_mx env (sqdist_prog n m p)) i j)
+    /\ eval_mx env' (lre_prog n m p q k) = eval_mx env (lre_prog n m p q k).
+Proof. exact recon_lre_target_rotation. Qed.
+Print Assumptions C13_lre_target_rotation.
+
+(* GRD(X, XQ) = 0 with the optimality of Omega derived from the checked contract (C13_grd_zero
+   assumes it) *)
+Theorem C13_grd_zero_checked :
+  forall (F : rcfType) (n m p : nat) (env : env_mx F) (Q : 'M[F]_p),
+    Q *m Q^T = 1%:M ->
+    rc_Ytr env n p = rc_Xtr env n p *m Q -> rc_Yte env m p = rc_Xte env m p *m Q ->
+    0 < varsum (rc_Xtr env n p) ->
+    rc_alpha env = 0 -> eval_mx env (ridge_hyp_prog n p p) = 0 ->
+    gram (Xs_tr n p env) 0 \in unitmx ->
+    rc_Ep env p p = 1%:M -> rc_Eq env p p = 1%:M ->
+    proc_contract n p p p env ->
+    eval_mx env (grd_prog n m p p p) = 0.
+Proof. exact recon_grd_zero_checked. Qed.
+Print Assumptions C13_grd_zero_checked.
+
+(* check_global_reconstruction_measures_input: explicit indices are passed through, the default
+   split is the oracle pair, a missing index set is np.setdiff1d(arange(n), given): increasing,
+   exactly the positions below n that the given set omits *)
+Theorem C13_index_resolution :
+  forall (n : nat) (train test : option (list nat)) (dflt : list nat * list nat),
+    let res := resolve_idx n train test dflt in
+    match train, test with
+    | Some tr, Some te => res = (tr, te)
+    | None, None => res = dflt
+    | Some tr, None =>
+        fst res = tr /\ Sorted.StronglySorted Peano.lt (snd res) /\
+        (forall i, List.In i (snd res) <-> ((i < n)%coq_nat /\ ~ List.In i tr))
+    | None, Some te =>
+        snd res = te /\ Sorted.StronglySorted Peano.lt (fst res) /\
+        (forall i, List.In i (fst res) <-> ((i < n)%coq_nat /\ ~ List.In i te))
+    end.
+Proof. exact resolve_idx_spec. Qed.
+Print Assumptions C13_index_resolution.
+
+(* ... so with one index set given, train and test are disjoint and cover range(n) *)
+Theorem C13_index_partition :
+  forall (n : nat) (idx : list nat) (i : nat),
+    (i < n)%coq_nat ->
+    (List.In i idx \/ List.In i (complement n idx)) /\ ~ (List.In i idx /\ List.In i (complement n idx)).
+Proof. exact resolve_idx_partition. Qed.
+Print Assumptions C13_index_partition.
+
+(* the two assertions; argsort(...)[:n_local_points] uses min(n_local_points, n_train) rows *)
+Theorem C13_guards :
+  forall nX nY k ntrain : nat,
+    (global_guard nX nY = true <-> nX = nY) /\
+    (local_guard nX nY k = true <-> ((k <= nX)%coq_nat /\ nX = nY)) /\
+    (eff_k k ntrain <= ntrain)%coq_nat /\ ((k <= ntrain)%coq_nat -> eff_k k ntrain = k) /\
+    ((ntrain <= k)%coq_nat -> eff_k k ntrain = ntrain).
+Proof. exact guards_spec. Qed.
+Print Assumptions C13_guards.
+
+(* non-vacuity of the Procrustes contract and of the hypotheses of the rotation theorems: the
+   tiny environment with Omega = E_p = E_q = 1, L = sqrt 2 (M = Xs^T Xs = 2) *)
+Example C13_nonvacuous_procrustes :
+  forall F : rcfType,
+    let env := tiny_recon_env2 F in
+    [/\ proc_contract 2 1 1 1 env, rc_Ep env 1 1 *m (rc_Ep env 1 1)^T = 1%:M,
+        rc_Eq env 1 1 *m (rc_Eq env 1 1)^T = 1%:M, gram (Xs_tr 2 1 env) 0 \in unitmx
+      & rc_alpha env = 0 /\ eval_mx env (ridge_hyp_prog 2 1 1) = 0].
+Proof. exact tiny_recon2_ok. Qed.
